@@ -425,6 +425,97 @@ func unknownInsertion(c *explore.Ctx) {
 	}
 }
 
+// ---- unions: a skipped field must not disturb the member decoded so far
+
+type unionT struct {
+	A bool   `thrift:"1"`
+	B int32  `thrift:"2"`
+	C string `thrift:"3"`
+	F any    `thrift:",union"`
+}
+
+func unionFamily(c *explore.Ctx) {
+	p := protos[c.Choose(3)]
+	member := c.Choose(4) // A, B, C, none
+	var fields []spec.Field
+	switch member {
+	case 0:
+		fields = []spec.Field{{ID: 1, V: spec.Val{T: spec.Bool, B: true}}}
+	case 1:
+		fields = []spec.Field{{ID: 2, V: spec.Val{T: spec.I32, I: 42}}}
+	case 2:
+		fields = []spec.Field{{ID: 3, V: spec.Val{T: spec.Binary, S: []byte("hello")}}}
+	}
+	where := c.Choose(4) // no extra field, before, after, before and after the member
+	extraKind := c.Choose(len(unkVals) + 1)
+	var extra spec.Field
+	what := ""
+	if extraKind < len(unkVals) {
+		extra = spec.Field{ID: 9, V: fixupListItems(unkVals[extraKind])}
+		what = "unknown " + extra.V.T.String() + " field 9"
+	} else {
+		// a declared field with another wire type (skipped in non-strict mode)
+		if p == spec.BinaryStrict || member == 1 {
+			c.Outcome("n/a")
+			return
+		}
+		extra = spec.Field{ID: 2, V: spec.Val{T: spec.I64, I: 7}}
+		what = "field 2 with wire type i64"
+	}
+	ast := spec.Val{T: spec.Struct}
+	if where&1 != 0 {
+		ast.Fields = append(ast.Fields, extra)
+	}
+	ast.Fields = append(ast.Fields, fields...)
+	if where&2 != 0 {
+		e2 := extra
+		if extraKind < len(unkVals) {
+			e2.ID = 10
+		}
+		ast.Fields = append(ast.Fields, e2)
+	}
+	in := spec.Encode(p, nil, ast, spec.Options{})
+	got, err, ok := decode(c, p, reflect.TypeOf(unionT{}), in, false, "union")
+	desc := fmt.Sprintf("union member %d with %s (position mask %d) over %s: % x", member, what, where, p, trunc(in))
+	if ok {
+		if err != nil {
+			c.Fail("union:rejected:"+proto3(p), "Unmarshal fails: %v for %s", err, desc)
+		} else {
+			u := got.Elem().Interface().(unionT)
+			want := unionT{}
+			switch member {
+			case 0:
+				want.A = true
+			case 1:
+				want.B = 42
+			case 2:
+				want.C = "hello"
+			}
+			good := u.A == want.A && u.B == want.B && u.C == want.C
+			switch f := u.F.(type) {
+			case nil:
+				good = good && member == 3
+			case *bool:
+				good = good && member == 0 && *f
+			case *int32:
+				good = good && member == 1 && *f == 42
+			case *string:
+				good = good && member == 2 && *f == "hello"
+			default:
+				good = false
+			}
+			if !good {
+				c.Fail("union:value-changed-by-skipped-field:"+proto3(p), "decoded %+v (F=%T) for %s", u, u.F, desc)
+			}
+		}
+	}
+	c.NontrivialStr("union", p.String(), fmt.Sprint(member, where, extraKind))
+	c.Outcome(fmt.Sprintf("%s member=%d", proto3(p), member))
+	if c.WantSample() || c.Failed() {
+		c.Case(map[string]any{"protocol": p.String(), "member": member, "extra": what, "position_mask": where, "input": fmt.Sprintf("%x", trunc(in))})
+	}
+}
+
 // ---- required fields and strict type checking
 
 func zeroOf(t spec.T) spec.Val {
@@ -604,10 +695,10 @@ func uvar(n uint64) []byte {
 func hostileSizes(c *explore.Ctx) {
 	p := protos[c.Choose(3)]
 	field := c.Choose(8) // which field of T1 carries the hostile size
-	sizes := []int64{-1, -2147483648, 2147483647, 1 << 20, 1 << 16, 3, 1 << 40}
+	sizes := []int64{-1, -2147483648, 2147483647, 1 << 20, 1 << 16, 3, 1 << 40, 1 << 28}
 	size := sizes[c.Choose(len(sizes))]
-	avail := c.Choose(3) // bytes of payload actually present after the header: 0, 2, 64
-	payload := bytes.Repeat([]byte{1}, []int{0, 2, 64}[avail])
+	avail := c.Choose(4) // bytes of payload actually present after the header: 0, 2, 64, 70000 (more than one read chunk)
+	payload := bytes.Repeat([]byte{1}, []int{0, 2, 64, 70000}[avail])
 	var in []byte
 	name := []string{"list<i32>", "binary", "string", "map<string,i32>", "set<i32>", "list<struct>", "list<list<i64>>", "list<bool>"}[field]
 	bin := p != spec.Compact
@@ -683,7 +774,8 @@ func Spec() *explore.Spec {
 			{Name: "truncations", ShardDepth: 2, Body: truncations, Bound: func(string) int { return 1 }, Doc: "valid encodings (struct types of 1-2 fields x id layouts x values x 3 protocols): every prefix must fail with an unexpected-EOF class error (io.EOF for the empty prefix), a trailing byte must be reported, every (position x 256) corruption decodes without panic and within the allocation budget (also in strict mode)"},
 			{Name: "unknown-insertion", ShardDepth: 2, Body: unknownInsertion, Bound: func(string) int { return 1 }, Doc: "one unknown field (ids below/in a gap/above/64+ above the declared ids, 32767) of every thrift type with nested values (20 values, depth 2) inserted at every field boundary of the top-level and nested structs: decoded value unchanged"},
 			{Name: "required-and-strict", ShardDepth: 2, Body: requiredAndStrict, Bound: func(string) int { return 1 }, Doc: "each required field removed -> MissingField naming it; each field sent with each of the other 10 wire types -> TypeMismatch in strict mode, skipped without disturbing the other fields otherwise"},
-			{Name: "hostile-sizes", ShardDepth: 2, Body: hostileSizes, Doc: "list/set/map/binary/string sizes replaced by {-1, MinInt32, MaxInt32, 2^20, 2^16, 3, 2^40} with 0/2/64 payload bytes present: error, no panic, allocation within 1 MiB + 1024 x len(input)"},
+			{Name: "union", ShardDepth: 2, Body: unionFamily, Doc: "a struct with a `thrift:\",union\"` field: each member (or none) x an unknown field of every thrift type, or a declared field with another wire type (non-strict), placed before / after / around the member: the member and the union interface keep their values"},
+			{Name: "hostile-sizes", ShardDepth: 2, Body: hostileSizes, Doc: "list/set/map/binary/string sizes replaced by {-1, MinInt32, MaxInt32, 2^20, 2^16, 3, 2^40, 2^28} with 0/2/64/70000 payload bytes present: error, no panic, allocation within 1 MiB + 1024 x len(input)"},
 		},
 		Rule: "exhaustive short inputs per Reader method and complete truncation / corruption / insertion / substitution sets per valid encoding; distinct non-trivial = distinct (type, value, protocol) or (protocol, method) blocks",
 		Assumptions: []string{
